@@ -19,6 +19,15 @@ RESERVED = ["_source", "_classification", "_generated", "_version"]
 
 
 def okey(v):
+    import datetime as _dt
+
+    # timestamps are values by their INSTANT (Python's own equality and hash of aware datetimes): the offset a timestamp was
+    # written with is not part of what record equality compares
+    if isinstance(v, _dt.datetime) and v.tzinfo is not None and v.utcoffset() is not None:
+        u = v.astimezone(_dt.timezone.utc)
+        return json.dumps(["instant", u.toordinal(), u.hour, u.minute, u.second, u.microsecond])
+    if isinstance(v, list) and any(isinstance(x, _dt.datetime) for x in v):
+        return json.dumps(["list", [okey(x) for x in v]])
     o = observe.obs_value(v)
 
     def strip(x):
@@ -238,6 +247,21 @@ def run(tier):
         # a grouped record nested in a grouped record
         inner_g = lambda gen2: GroupedRecord("g/in", [mk("x", 1), I2("x", "g1", _generated=gen2)])
         add(GroupedRecord("g/out", [inner_g(gen.GEN), mk("z", 3)]), GroupedRecord("g/out", [inner_g(G2), mk("z", 3)]), ign, {"pair": "grouped-in-grouped-vary-generated", "ign": sorted(ign)})
+    # the same INSTANT written with different UTC offsets (in a field, in a list element, as _generated, nested): whatever
+    # equality says about such a pair, the hashes must say the same
+    import datetime as _dt
+
+    DT = RecordDescriptor("t/instants", [("datetime", "ts"), ("datetime[]", "tl"), ("string", "g")])
+    HT = RecordDescriptor("t/instholder", [("record", "r"), ("string", "g")])
+    t0 = _dt.datetime(2022, 3, 4, 12, 0, 0, 5, tzinfo=_dt.timezone.utc)
+    for off in (2, -5, 5.5, 14, -12):
+        t1 = t0.astimezone(_dt.timezone(_dt.timedelta(hours=off)))
+        for ign in (set(), {"_generated"}):
+            add(DT(t0, [], "x", _generated=gen.GEN), DT(t1, [], "x", _generated=gen.GEN), ign, {"pair": "same-instant-other-offset:field", "offset_h": off, "ign": sorted(ign)})
+            add(DT(None, [t0, t0], "x", _generated=gen.GEN), DT(None, [t0, t1], "x", _generated=gen.GEN), ign, {"pair": "same-instant-other-offset:list-element", "offset_h": off, "ign": sorted(ign)})
+            add(DT(None, [], "x", _generated=t0), DT(None, [], "x", _generated=t1), ign, {"pair": "same-instant-other-offset:_generated", "offset_h": off, "ign": sorted(ign)})
+            add(HT(DT(t0, [], "x", _generated=gen.GEN), "x", _generated=gen.GEN), HT(DT(t1, [], "x", _generated=gen.GEN), "x", _generated=gen.GEN), ign, {"pair": "same-instant-other-offset:nested", "offset_h": off, "ign": sorted(ign)})
+            add(GroupedRecord("g/i", [DT(t0, [], "x", _generated=gen.GEN)]), GroupedRecord("g/i", [DT(t1, [], "x", _generated=gen.GEN)]), ign, {"pair": "same-instant-other-offset:grouped", "offset_h": off, "ign": sorted(ign)})
     # a record that was already packed / hashed / compared, whose typed LIST field is then changed IN PLACE: equality and
     # hash follow the current contents
     for T, v1, v2 in (("string", "a", "b"), ("varint", 1, 2), ("path", "/a", "/b"), ("uint16", 1, 2)):
